@@ -2,6 +2,9 @@ use crate::PropDef;
 
 pub mod pairs;
 
+pub mod c03;
+pub mod c04;
+pub mod c05;
 pub mod c11;
 pub mod c12;
 pub mod c17;
@@ -9,5 +12,14 @@ pub mod c18;
 pub mod c24;
 
 pub fn all() -> Vec<PropDef> {
-    vec![c11::def(), c12::def(), c17::def(), c18::def(), c24::def()]
+    vec![
+        c03::def(),
+        c04::def(),
+        c05::def(),
+        c11::def(),
+        c12::def(),
+        c17::def(),
+        c18::def(),
+        c24::def(),
+    ]
 }
